@@ -12,6 +12,7 @@ import (
 	"unicode/utf8"
 
 	"verif/internal/engine"
+	"verif/internal/gen"
 )
 
 // ReplayDoc is what a violation's replay file carries: enough to rerun the case on the real binary.
@@ -100,6 +101,12 @@ func replay(path string) int {
 	show := func(d *ReplayDoc, label string) {
 		cfg := d.Cfg
 		if cfg == "inline" {
+			if len(d.CfgFiles) == 0 {
+				// checks that run under the 21 core configuration files do not repeat them in every replay file
+				d.CfgFiles = gen.CoreConfig(engine.RepoRoot)
+			} else if strings.Contains(d.Note, "plus the 21 core configuration files") || strings.Contains(d.Note, "(plus the 21 core") {
+				d.CfgFiles = gen.Merge(gen.CoreConfig(engine.RepoRoot), d.CfgFiles)
+			}
 			pool.NewCfgDir("replay-"+label, d.CfgFiles)
 			cfg = "replay-" + label
 		}
